@@ -431,6 +431,73 @@ func symmetricGraph(t *tape.Tape, g *model.G) string {
 	return "too small for a symmetric family: edgeless"
 }
 
+// showcase is a named highly symmetric graph (deep search trees with many equivalent leaves).
+type showcase struct {
+	n     int
+	name  string
+	edges [][2]int
+}
+
+func drawShowcase(t *tape.Tape) *showcase {
+	sc := &showcase{}
+	add := func(a, b int) { sc.edges = append(sc.edges, [2]int{a, b}) }
+	switch t.Draw(6) {
+	case 0, 1, 2:
+		m := t.Range(5, 10)
+		k := 1 + t.Draw((m-1)/2)
+		sc.n, sc.name = 2*m, fmt.Sprintf("generalised Petersen graph GP(%d,%d)", m, k)
+		for i := 0; i < m; i++ {
+			add(i, (i+1)%m)
+			add(i, m+i)
+			add(m+i, m+(i+k)%m)
+		}
+	case 3:
+		m := t.Range(3, 9)
+		sc.n, sc.name = 2*m, fmt.Sprintf("Moebius ladder on %d vertices", 2*m)
+		for i := 0; i < 2*m; i++ {
+			add(i, (i+1)%(2*m))
+			if i < m {
+				add(i, i+m)
+			}
+		}
+	case 4:
+		a, b := t.Range(3, 4), t.Range(3, 5)
+		sc.n, sc.name = a*b, fmt.Sprintf("torus C%d x C%d", a, b)
+		for x := 0; x < a; x++ {
+			for y := 0; y < b; y++ {
+				add(x*b+y, ((x+1)%a)*b+y)
+				add(x*b+y, x*b+(y+1)%b)
+			}
+		}
+	default:
+		// circulant C_n(1, j)
+		n := t.Range(7, 16)
+		j := t.Range(2, n/2)
+		sc.n, sc.name = n, fmt.Sprintf("circulant C%d(1,%d)", n, j)
+		for i := 0; i < n; i++ {
+			add(i, (i+1)%n)
+			add(i, (i+j)%n)
+		}
+	}
+	return sc
+}
+
+func (sc *showcase) build(t *tape.Tape) (*model.G, string) {
+	g := model.NewG(sc.n)
+	p := t.Perm(sc.n)
+	for _, e := range sc.edges {
+		if p[e[0]] != p[e[1]] {
+			g.Add(p[e[0]], p[e[1]])
+		}
+	}
+	sw := 0
+	if t.Chance(1, 4) {
+		sw = 1 + t.Draw(2)
+		switchEdges(t, g, sw)
+	}
+	return g, fmt.Sprintf("%s relabelled by %v (%d switches)", sc.name, p, sw)
+}
+
 func toDense(g *model.G) *graph.DenseGraph {
 	d := graph.NewDense(g.N, nil)
 	for j := 0; j < g.N; j++ {
@@ -582,6 +649,15 @@ func runOne(r *driver.Run) {
 		N = t.Range(21, 28) // cells of more than 20 vertices (block size of the hand-written stable sort)
 		r.Probe("service-capacity-21-to-28")
 	}
+	// showcase history: one named symmetric graph, asked again and again under fresh
+	// relabellings (the search tree, and with it which automorphisms are met and which
+	// branches are pruned by them, depends on the labelling)
+	var show *showcase
+	if t.Chance(1, 6) {
+		show = drawShowcase(t)
+		N = show.n + t.Draw(3)
+		r.Probe("showcase-history")
+	}
 	M := N * (N - 1) / 2
 	nreq := t.Range(1, 14)
 	classRate := []int{0, 0, 1, 4}[t.Draw(4)]
@@ -606,7 +682,14 @@ func runOne(r *driver.Run) {
 	interrupted, reused, sizeChanges := 0, 0, 0
 	for q := 0; q < nreq; q++ {
 		n := t.Range(1, N)
-		g, fam := genGraph(r, n, prev)
+		var g *model.G
+		var fam string
+		if show != nil && !t.Chance(1, 5) {
+			n = show.n
+			g, fam = show.build(t)
+		} else {
+			g, fam = genGraph(r, n, prev)
+		}
 		m := g.M()
 		nb := neighbours(g)
 		// vertex classes: an ordered partition of the vertex set, each class ascending
@@ -748,7 +831,7 @@ func main() {
 		Property: "C02",
 		Engine:   "canon-service",
 		Level:    "exploration",
-		Rule: "a case is one seeded history of up to 14 labelling requests through ONE reused CanonicalStorage/CanonicalOrderedPartition/CanonicalOptions triple of tape-chosen capacity N <= 9 (one history in six: 10 <= N <= 16; one in 30: 21 <= N <= 28): graph sizes go up and down within capacity; families: edgeless, complete, cycle, complete bipartite, complete multipartite, unions of cliques and their complements, rook graphs, random regular graphs (half of them only 0-3 switches away from a circulant), named symmetric graphs (hypercubes, Petersen and generalised Petersen graphs, prisms, Moebius ladders, tori, Paley graphs) with 0-2 edge switches and sometimes one pair toggled, two copies of a random graph, circulants, planted automorphisms, relabelled copy of the previous graph, random densities; some requests carry vertex classes (an ordered partition, classes ascending) and some are 'interrupted' (CheckViability with tape-drawn ViableBits, which may return early and leave the partition mid-search before the next Reset). " +
+		Rule: "a case is one seeded history of up to 14 labelling requests through ONE reused CanonicalStorage/CanonicalOrderedPartition/CanonicalOptions triple of tape-chosen capacity N <= 9 (one history in six: 10 <= N <= 16; one in 30: 21 <= N <= 28; one in six is a 'showcase': a generalised Petersen graph GP(5..10,k), Moebius ladder, torus or circulant on up to 20 vertices asked again and again under fresh relabellings): graph sizes go up and down within capacity; families: edgeless, complete, cycle, complete bipartite, complete multipartite, unions of cliques and their complements, rook graphs, random regular graphs (half of them only 0-3 switches away from a circulant), named symmetric graphs (hypercubes, Petersen and generalised Petersen graphs, prisms, Moebius ladders, tori, Paley graphs) with 0-2 edge switches and sometimes one pair toggled, two copies of a random graph, circulants, planted automorphisms, relabelled copy of the previous graph, random densities; some requests carry vertex classes (an ordered partition, classes ascending) and some are 'interrupted' (CheckViability with tape-drawn ViableBits, which may return early and leave the partition mid-search before the next Reset). " +
 			"Each answer must equal the same call on fresh storage and CanonicalIsomorphFull (perm, orbit partition, generator list), perm must be a permutation, and for groups of up to 60000 elements brute force over all (class-preserving) automorphisms must confirm orbits = orbits of Aut(g), every generator in Aut(g), closure of the generators = Aut(g). Non-trivial = at least 3 requests with at least one size change; distinct = distinct fingerprints of the observed answers.",
 		Assumptions: []string{
 			"the caller protocol of the search package is followed: Reset(n, m, classes) before every call, sizes within the capacity the pair was created with, n >= 1",
